@@ -125,6 +125,16 @@ def rk_case(case):
         if call == 0:
             tcur = tcur + dT; ycur = ycur + dY            # call 1 continues where call 0 ended (cached end slope is legitimately reused)
         else:
+            # call "rev": the SAME object steps back with -h of exactly the same magnitude from where call 1 ended (anything cached per step size
+            # must not survive the change of sign)
+            trev = tcur + dT; yrev = (ycur + dY).astype(dtype); hrev = -dtype(case["h"])
+            try:
+                new_dt, (dTr, dYr) = m(rhs, trev, yrev, {}, hrev)
+            except Exception:
+                r.add("not_accepted")
+                break
+            tn = float(np.max(np.abs(m.atol + np.max(np.abs(m.rtol * yrev))))) * 0.5 if implicit else None
+            check_rk_state(r, m, M, f, L, trev, yrev, hrev, dTr, dYr, dtype, dict(case, call="rev"), tol_newton=tn, label=" (call rev, -h after +h)")
             # call 2: the SAME integrator object is asked for a step from an unrelated (t, y) with another h:
             # the property holds for any time, state and step, not only for the continuation of the previous call
             tcur = dtype(case["t"]) + dtype(0.75); ycur = (y * dtype(0.5) + dtype(0.25)).astype(dtype); h = dtype(-0.5) * dtype(case["h"])
